@@ -34,7 +34,7 @@ def all_cases(tier):
                 out.append({"kind": "split", "n": n, "test": ts, "val": None if dv is None else float(dv), "shuffle": None})
     for n in range(0, 11):
         for b in range(1, 7):
-            for tr in ("none", "default", "identity", "scale", "scale_positional"):
+            for tr in ("none", "default", "identity", "scale", "scale_positional") + (("scale_function", "scale_lambda", "scale_callable_object") if n <= 6 and b <= 3 else ()):
                 out.append({"kind": "loader", "n": n, "batch": b, "transform": tr})
             for yl in ("column", "onehot3", "list"):          # label containers other than a 1-D array
                 out.append({"kind": "loader", "n": n, "batch": b, "transform": "default", "ylayout": yl})
@@ -125,6 +125,15 @@ def judge(case):
             elif tr == "none": dl = D.DataLoader(X, y, b, transform=None)
             elif tr == "identity": dl = D.DataLoader(X, y, b, transform=Ident())
             elif tr == "scale_positional": dl = D.DataLoader(X, y, b, Scale())      # transform passed as the 4th positional argument
+            elif tr == "scale_function":          # any callable taking (loader, X_batch, y_batch) is a transform: plain function ...
+                def fn(dl_, Xb, yb): calls.append(len(yb)); return Xb * 2, yb + 1
+                dl = D.DataLoader(X, y, b, transform=fn)
+            elif tr == "scale_lambda":            # ... lambda ...
+                dl = D.DataLoader(X, y, b, transform=lambda dl_, Xb, yb: (calls.append(len(yb)), (Xb * 2, yb + 1))[1])
+            elif tr == "scale_callable_object":   # ... or an object with __call__ that does not derive from DataLoaderCallback
+                class Obj:
+                    def __call__(self, dl_, Xb, yb): calls.append(len(yb)); return Xb * 2, yb + 1
+                dl = D.DataLoader(X, y, b, transform=Obj())
             else: dl = D.DataLoader(X, y, b, transform=Scale())
             nb = n // b
             if len(dl) != nb: v("len", f"len(loader)={len(dl)}, floor({n}/{b})={nb}")
@@ -138,7 +147,7 @@ def judge(case):
                     if tr.startswith("scale"): eX, ey = eX * 2, ey + 1
                     if len(yb) != b or not (np.array_equal(np.asarray(Xb), eX) and np.array_equal(np.asarray(yb), ey)):
                         v("batch-content", f"pass {rep} batch {k}: labels {np.asarray(yb)}, expected {ey}"); break
-                if tr in ("identity", "scale", "scale_positional") and calls != [b] * nb:
+                if tr in ("identity", "scale", "scale_positional", "scale_function", "scale_lambda", "scale_callable_object") and calls != [b] * nb:
                     v("transform-calls", f"transform called with batch sizes {calls}, expected once per batch")
             if nb >= 2:
                 # restart after a partial pass
